@@ -501,17 +501,24 @@ fn render_attr_list(rng: &mut Rng, frags: &[String], indent: &str) -> String {
             i += 1;
             continue;
         }
-        // other people's attributes and doc comments in between
-        if rng.chance(1, 12) {
+        // other people's attributes and doc comments in between (they are input tokens too)
+        if rng.chance(1, 8) {
             s.push_str(&format!(
                 "{indent}{}\n",
-                rng.pick(&[
+rng.pick(&[
                     "/// documented",
                     "#[doc = \"also documented\"]",
                     "#[allow(dead_code)]",
+                    "#[allow(dead_code, deprecated, non_camel_case_types, clippy::large_enum_variant)]",
+                    "#[deny(missing_docs, unused_variables)]",
                     "#[cfg_attr(test, allow(unused))]",
-                    "#[serde(rename = \"x\")]",
+                    "#[cfg_attr(feature = \"serde\", derive(Serialize), serde(rename_all = \"camelCase\", deny_unknown_fields))]",
+                    "#[serde(rename = \"x\", default, skip_serializing_if = \"Option::is_none\")]",
                     "#[doc(hidden)]",
+                    "#[doc(alias = \"a\", alias = \"b\")]",
+                    "#[must_use = \"why\"]",
+                    "#[non_exhaustive]",
+                    "#[warn(clippy::all, clippy::pedantic)]",
                 ])
             ));
         }
